@@ -54,7 +54,7 @@ func ZZ_C06_Step() {
 	vx.Assume(requested >= 0)
 	vx.Assume(used >= 0)
 	vx.Assume(int64(used) <= lastGranted) // compliant consumer
-	vx.Assume(int64(requested)*cost < 1<<32)
+	vx.Assume(int64(requested)*cost < 1<<32) // (products beyond 32 bits: ZZ_C06_BigProducts)
 	vx.Assume(int64(used)*cost < 1<<32)
 	u := models.ChfConvergedChargingMultipleUnitUsage{RatingGroup: rg, UPFID: "upf", RequestedUnit: &models.RequestedUnit{TotalVolume: requested}}
 	u.UsedUnitContainer = []models.ChfConvergedChargingUsedUnitContainer{{QuotaManagementIndicator: models.QuotaManagementIndicator_ONLINE_CHARGING, TotalVolume: used}}
@@ -119,6 +119,14 @@ func ZZ_C06_regionShortOfMoney(requested64, cost, balance64, reserved, used64 in
 // account server for a top-up and never learns that the money is short.
 func ZZ_C06_regionReservationLeft(reserved, used64, cost int64) bool {
 	return reserved-used64*cost > 0
+}
+
+// Requested volume x tariff does not fit 32 bits: the CHF computes the money
+// amount in uint32, asks the account server for the wrapped amount and gets
+// it without a final-unit indication although the real price exceeds the
+// money available (the grant itself is limited to the wrapped amount).
+func ZZ_C06_regionProductBeyond32Bits(requested64, cost int64) bool {
+	return requested64*cost >= 1<<32
 }
 
 // The group is already in debit mode (its previous grant was the last one):
@@ -256,4 +264,58 @@ func ZZ_C06_History() {
 // History form of the recorded over-grant: money short while the group is open.
 func ZZ_C06_regionShortOfMoneyWhileOpen(mode, requested64, cost, balance64, reserved, used64 int64) bool {
 	return mode != 2 && requested64*cost > balance64+reserved-used64*cost
+}
+
+// C06 where requested volume x tariff does not fit 32 bits (C06 is quantified
+// over all volumes and costs; the CHF computes money amounts in uint32): the
+// first request of a rating group, from any balance. The balance stays
+// non-negative and the grant stays backed by money held; the missing
+// final-unit indication is a recorded known finding.
+//
+//gosx:property=C06 tier=quick unwind=40 timeout=30000
+func ZZ_C06_BigProducts() {
+	zzSetup()
+	rg := int32(1)
+	q := vx.Int64("balance")
+	vx.Assume(q >= 0)
+	vx.Assume(q < 1<<40)
+	cost := []int64{10, 333, 9999}[vx.Choice("cost", 3)]
+	zzAccount(zzSupi, rg, q, cost)
+	ue, err := chf_context.GetSelf().NewCHFUe(zzSupi)
+	vx.Assert("subscriber context created", err == nil && ue != nil)
+	requested := vx.Int32("requested")
+	vx.Assume(requested >= 0)
+	vx.Assume(int64(requested)*cost >= 1<<32)
+	u := models.ChfConvergedChargingMultipleUnitUsage{RatingGroup: rg, UPFID: "upf", RequestedUnit: &models.RequestedUnit{TotalVolume: requested}}
+	u.UsedUnitContainer = []models.ChfConvergedChargingUsedUnitContainer{{QuotaManagementIndicator: models.QuotaManagementIndicator_ONLINE_CHARGING, TotalVolume: 0}}
+	req := models.ChfConvergedChargingChargingDataRequest{SubscriberIdentifier: zzSupi, MultipleUnitUsage: []models.ChfConvergedChargingMultipleUnitUsage{u}}
+	vx.Tag("requested64", int64(requested))
+	vx.Tag("cost", cost)
+	vx.Tag("balance64", q)
+	info, _ := sessionChargingReservation(req)
+	after := zzBalance(zzSupi, rg)
+	res := ue.ReservedQuota[rg]
+	vx.Assert("(i) balance never negative", after >= 0)
+	vx.Assert("(i) reservation never negative", res >= 0)
+	vx.Assert("bookkeeping lemma: reservation' + balance' = balance", res+after == q)
+	if len(info) != 1 {
+		vx.Fail("one unit information per credit-controlled usage entry")
+		return
+	}
+	granted := int64(0)
+	if info[0].GrantedUnit != nil {
+		granted = int64(info[0].GrantedUnit.TotalVolume)
+	}
+	vx.Assert("grant is not negative and not more than requested", granted >= 0 && granted <= int64(requested))
+	vx.Assert("(ii) the grant is backed by money held: granted x cost <= reservation + balance", granted*cost <= res+after)
+	if int64(requested)*cost > q {
+		fui := info[0].FinalUnitIndication
+		vx.Assert("(iii) final-unit indication when the money buys less than requested", fui != nil && fui.FinalUnitAction == models.FinalUnitAction_TERMINATE)
+	}
+}
+
+// The recorded over-grant in its wrapped form: the amount the CHF asks the
+// account server for (requested x cost modulo 2^32) exceeds the balance.
+func ZZ_C06_regionWrappedShortOfMoney(requested64, cost, balance64 int64) bool {
+	return (requested64*cost)&0xffffffff > balance64
 }
